@@ -32,6 +32,7 @@ def policy : List (String × Guard) := [
   ("SrvReq.next", .via "Conn"), ("SrvReq.prev", .via "Conn"), ("SrvReq.flushreq", .via "Conn"),
   -- fid reference count
   ("SrvFid.refcount", .own "SrvFid"), ("SrvFid.destroyed", .own "SrvFid"), ("SrvFid.pending", .own "SrvFid"),
+  ("SrvFid.kept", .own "SrvFid"), ("SrvFid.dead", .own "SrvFid"),
   -- server: connection set
   ("Srv.conns", .own "Srv"),
   -- client: pending list and sticky error
